@@ -1004,8 +1004,11 @@ theorem watch_runFrame' (p : Prog) (hh : Hist) (s : St) (f : Frame) (hc : WCore 
     split
     · exact simple _ [.flush] (WStep.of_same (by csame) hc) rfl rfl (by intro g hg; simp at hg; subst hg; trivial)
     · rename_i a _
-      exact queue _ [.exclActs sys (i + 1)] (enqueue s a).2 ((wstep_enqueue hc a).right (by csame)) (by simp [St.push]) (by simp [St.push])
-        (by intro g hg; simp at hg; subst hg; trivial) (lstAny_plain _ _ (enqueue_plainW s a))
+      split
+      · exact queue _ [.flush, .exclActs sys (i + 1)] (enqueue s a).2 ((wstep_enqueue hc a).right (by csame)) (by simp [St.push]) (by simp [St.push])
+          (by intro g hg; simp at hg; rcases hg with rfl | rfl <;> trivial) (lstAny_plain _ _ (enqueue_plainW s a))
+      · exact queue _ [.exclActs sys (i + 1)] (enqueue s a).2 ((wstep_enqueue hc a).right (by csame)) (by simp [St.push]) (by simp [St.push])
+          (by intro g hg; simp at hg; subst hg; trivial) (lstAny_plain _ _ (enqueue_plainW s a))
   | topActs t i =>
     simp only [runFrame, doTopActs]
     split
